@@ -11,7 +11,9 @@ from .common import F_BASE, F_BC, F_DISC, F_MULTI, F_QUAL, F_QUAN, F_TYPE, calls
 from .grouped import _flatten_conditions
 
 EXPLANATION = (
-    "Decides: R-labels-last (in every fit override the call that builds labels_per_values -- "
+    "Decides: R-label-alignment (label k is paired with the k-th group of the *list* order and its members "
+    "are read through values.get(leader); the insertion order of `content` is never used positionally); "
+    "R-labels-last (in every fit override the call that builds labels_per_values -- "
     "BaseDiscretizer.fit -- lies on every normal path and no statement after it edits values_orders or "
     "the feature lists; BaseDiscretizer.fit builds the table from self.output_dtype); "
     "R-interval-lookup (masks `data <= boundary` and labels are comprehensions over the same iterable "
@@ -26,7 +28,7 @@ EXPLANATION = (
     "(quantitative labels built from plain lists are stored with index=X.index: each row gets the label of its own value)."
 )
 NOT_DECIDED = "pandas replace/select semantics; equality of outputs on data"
-FLOORS = {"R-labels-last": 12, "R-interval-lookup": 2, "R-float-labels-injective": 1, "R-label-injective": 1, "R-string-form": 2, "R-nan-restore": 2, "R-qualitative-map": 1, "R-index-kept": 1}
+FLOORS = {"R-labels-last": 12, "R-interval-lookup": 2, "R-float-labels-injective": 1, "R-label-injective": 1, "R-string-form": 2, "R-nan-restore": 2, "R-qualitative-map": 1, "R-index-kept": 1, "R-label-alignment": 2}
 
 EDIT_NAMES = ("values_orders", "_remove_feature", "features", "quantitative_features", "qualitative_features")
 
@@ -199,6 +201,50 @@ def rule_label_injective(ctx):
            "" if established else "two boundaries that agree on the formatted digits (close floats at low precision; any two integers beyond 2**53 at every precision) get the same label; labels are dict keys, so their groups collapse at transform or carving crashes")
 
 
+def rule_label_alignment(ctx, R="R-label-alignment"):
+    """labels[k] goes to the members of the k-th group *of the list order*: `content` is a dict whose
+    insertion order differs from the group order after replace_group_leader / update."""
+    repo = ctx.repo
+    fi = repo.find_function(f"{F_BASE}::BaseDiscretizer._get_labels_per_values")
+    cfg = cfg_of(ctx, fi)
+    zips = [c for c in ast.walk(fi.node) if isinstance(c, ast.Call) and call_name(c) == "zip" and any("labels" in unparse(a) for a in c.args)]
+    ok = False
+    why = "no zip of groups with labels found"
+    if len(zips) == 1:
+        z = zips[0]
+        args = [unparse(a) for a in z.args]
+        ok = args == ["values", "labels"]
+        why = f"groups and labels are paired through zip({', '.join(args)})"
+        par = cfg.parent(z)
+        if ok and isinstance(par, ast.For) and isinstance(par.target, ast.Tuple):
+            g = unparse(par.target.elts[0])
+            inner = [n for n in ast.walk(par) if isinstance(n, ast.For) and n is not par]
+            ok = any(unparse(n.iter) in (f"values.get({g})", f"values.content[{g}]", f"values.content.get({g})") for n in inner)
+            why = "members of a group are not read through values.get(<leader>)"
+    defs = {}
+    for n in walk_no_nested(fi.node):
+        if isinstance(n, ast.Assign) and isinstance(n.targets[0], ast.Name):
+            defs.setdefault(n.targets[0].id, n.value)
+    ok = ok and unparse(defs.get("values", ast.Constant(None))) == "self.values_orders[feature]"
+    ctx.ob(R, construct(fi, "label k is given to the members of the k-th group of the list order"), ok, loc(fi, zips[0] if zips else None), "" if ok else why)
+    # nowhere in the package is the insertion order of `content` used positionally
+    n = 0
+    bad = []
+    for f in repo.all_functions():
+        if "/selectors/" in f.module.relpath:
+            continue
+        for c in ast.walk(f.node):
+            if isinstance(c, ast.Call) and call_name(c) in ("zip", "enumerate"):
+                n += 1
+                if any(".content" in unparse(a) for a in c.args):
+                    bad.append((f, c))
+    for f, c in bad[:3]:
+        ctx.ob(R, construct(f, f"`{short(c, 70)}` pairs by the insertion order of content"), False, loc(f, c),
+               "the dict order of `content` is not the group order (replace_group_leader re-inserts the new leader last)")
+    if not bad:
+        ctx.ob(R, f"{n} zip/enumerate calls in the discretizer / carver modules, none over a `content` dict", True, "")
+
+
 def rule_string_form(ctx):
     R = "R-string-form"
     fi = ctx.repo.find_function(f"{F_TYPE}::fit_feature")
@@ -294,6 +340,7 @@ def rule_qualitative_map(ctx):
 
 
 def check(ctx):
+    rule_label_alignment(ctx)
     rule_labels_last(ctx)
     rule_interval_lookup(ctx)
     rule_float_labels(ctx)
@@ -323,6 +370,7 @@ MUTANTS = [
     M("OrdinalDiscretizer stores the merged orders after the label table", [(F_QUAL, "        # discretizing features based on each feature's values_order\n        super().fit(x_copy, y)\n\n        return self\n\n\nclass ChainedDiscretizer", "        # discretizing features based on each feature's values_order\n        super().fit(x_copy, y)\n        self.values_orders.update(known_orders)\n\n        return self\n\n\nclass ChainedDiscretizer")], "R-labels-last", "OrdinalDiscretizer.fit", quick=True),
     M("StringDiscretizer never builds labels", [(F_TYPE, "        # discretizing features based on each feature's values_order\n        super().fit(X, y)\n", "        self.is_fitted = True\n")], "R-labels-last", "StringDiscretizer.fit"),
     M("Discretizer builds labels only when verbose", [(F_DISC, "        # discretizing features based on each feature's values_order\n        super().fit(X, y)\n\n        return self\n\n\nclass QualitativeDiscretizer", "        # discretizing features based on each feature's values_order\n        if self.verbose:\n            super().fit(X, y)\n\n        return self\n\n\nclass QualitativeDiscretizer")], "R-labels-last", "Discretizer.fit"),
+    M("labels paired with groups in content (dict) order", [(F_BASE, "            for group_of_values, label in zip(values, labels):\n                for value in values.get(group_of_values):\n                    label_per_value.update({value: label})\n", "            for group_values, label in zip(values.content.values(), labels):\n                label_per_value.update({value: label for value in group_values})\n")], "R-label-alignment", quick=True),
     M("labels filter differs from masks filter", [(F_BASE, "        [labels_per_values[feature][value]] * x_len for value in feature_values if value != str_nan\n", "        [labels_per_values[feature][value]] * x_len for value in feature_values\n")], "R-interval-lookup", "mask k"),
     M("labels iterate in reversed order", [(F_BASE, "        [labels_per_values[feature][value]] * x_len for value in feature_values if value != str_nan\n", "        [labels_per_values[feature][value]] * x_len for value in feature_values[::-1] if value != str_nan\n")], "R-interval-lookup", "mask k"),
     M("float labels not injective (len of group)", [(F_BASE, "                labels = [n for n, _ in enumerate(labels)]", "                labels = [len(str(lab)) for n, lab in enumerate(labels)]")], "R-float-labels-injective"),
